@@ -477,10 +477,9 @@ func corrArc(c *hc.Ctx) {
 		}
 		sc := pow2Scale(a.start.X, a.start.Y, a.end.X, a.end.Y, rx)
 		line := fmt.Sprintf("FA %s %s %s", hc.B(large), hc.B(sweep), hc.Hs(a.start.X, a.start.Y, rx, ry, phi, a.end.X, a.end.Y, tol, sc))
+		shape := "circle"
 		if !canvas.Equal(rx, ry) {
-			c.Case(line, "=", "NOTCIRCLE")
-			c.Count("corr-arc:elliptic-route")
-			continue
+			shape = "ellipse"
 		}
 		if tol >= rx {
 			// Acos((r-tol)/r) of a negative argument / NaN: behaviour is judged by the oracle, the
@@ -499,7 +498,7 @@ func corrArc(c *hc.Ctx) {
 			continue
 		}
 		c.Case(line, "~", flatTokensScaled(out, sc))
-		c.Count("corr-arc:circle:" + fam)
+		c.Count("corr-arc:" + shape + ":" + fam)
 		c.Count(fmt.Sprintf("corr-arc-flags:large=%v,sweep=%v", large, sweep))
 		c.Distinct(line)
 	}
@@ -1071,9 +1070,8 @@ func boundFor(s hc.Seg) float64 {
 	case 'Q':
 		return cQuad
 	case 'A':
-		if canvas.Equal(s.Rx, s.Ry) {
-			return cCircle
-		}
+		// since f749928 every arc is flattened as the image of a circle under a map that does not increase distances
+		return cCircle
 	}
 	return cCubic
 }
@@ -1102,8 +1100,9 @@ func flattenOne(c *hc.Ctx, p *canvas.Path, tol float64, fam string) {
 	replay := map[string]any{"path": p.String(), "data": hc.DataHex(p.Data()), "tol": tol, "family": fam, "out": outs}
 	scale := scaleOf(in)
 	round := 1e-9*scale + 1e-12
-	// elliptic arcs go through arcToCube: fixed relative error (known defect class when it shows);
-	// arc angles come from Acos (absolute error about sqrt(ulp) = 1.5e-8 rad near 0 and pi) and the centre
+	// `floor` is only a LABEL now: until f749928 elliptic arcs went through arcToCube (fixed relative error); a failure
+	// of an elliptic arc within that old error is reported under the regression kind flatten-elliptic-arc-error-floor.
+	// Arc angles come from Acos (absolute error about sqrt(ulp) = 1.5e-8 rad near 0 and pi) and the centre
 	// from a square root clamped at Epsilon: allow 1e-7 * radius for every arc
 	floor := 0.0
 	for _, s := range in {
@@ -1114,7 +1113,7 @@ func flattenOne(c *hc.Ctx, p *canvas.Path, tol float64, fam string) {
 			}
 		}
 	}
-	j := judge(in, out, tol, floor+round)
+	j := judge(in, out, tol, round)
 	if !j.structureOK {
 		kind := "flatten-structure"
 		for _, s := range in {
@@ -1131,8 +1130,8 @@ func flattenOne(c *hc.Ctx, p *canvas.Path, tol float64, fam string) {
 		return
 	}
 	c.Distinct(p.String() + fmt.Sprint(tol))
-	if j.vertexDev > tol+round+floor {
-		// known defect class: strokeCubicBezier splits at t1max without checking t1max < 1 (path_util.go:936-939),
+	if j.vertexDev > tol+round {
+		// regression class: strokeCubicBezier splits at t1max without checking t1max < 1 (path_util.go:936-939),
 		// so a vertex B(t) with t > 1 — on the polynomial extension of the cubic, beyond its end — is emitted
 		for _, s := range in {
 			if s.Kind != 'C' {
@@ -1159,7 +1158,7 @@ func flattenOne(c *hc.Ctx, p *canvas.Path, tol float64, fam string) {
 			}
 		}
 	}
-	if !j.orderOK && j.vertexDev <= tol+round+floor {
+	if !j.orderOK && j.vertexDev <= tol+round {
 		for _, s := range in {
 			if twoInflectionsOrCusp(s) {
 				// known defect class: overlapping inflection ranges in strokeCubicBezier emit B(t1max) and then
@@ -1198,19 +1197,6 @@ func flattenOne(c *hc.Ctx, p *canvas.Path, tol float64, fam string) {
 		c.Count("lean-verdict:" + string(s.Kind))
 	}
 	known := classify(j.worst)
-	if w := j.worst; w.Kind == 'A' && !canvas.Equal(w.Rx, w.Ry) {
-		// elliptic route: the arc is flattened as the cubics of arcToCube; label it by their control polygons
-		ap := &canvas.Path{}
-		ap.MoveTo(w.P0.X, w.P0.Y)
-		ap.ArcTo(w.Rx, w.Ry, w.Phi*180/math.Pi, w.Large, w.Sweep, w.End.X, w.End.Y)
-		if cs, err := hc.Decode(ap.ReplaceArcs().Data()); err == nil {
-			for _, s := range cs {
-				if k := classify(s); k != "" && s.Kind == 'C' {
-					known = k
-				}
-			}
-		}
-	}
 	bound := boundFor(j.worst)
 	ratio := math.Max(0, (j.curveDev-round)/tol)
 	if known == "" {
@@ -1561,11 +1547,25 @@ func xMonotoneSeg(s hc.Seg, slack float64) bool {
 	return !(up && down)
 }
 
+// xmonoRegressions: the inputs of the repaired xmonotoneCubicBezier defect (2a055fa), judged on every run
+var xmonoRegressions = []string{
+	"M-8.074 9.388C-8.073994926 9.387998362 -8.073995926 9.388002578 -8.074000426 9.387972839",
+	"M-9 8C-9.000002 10.764426545269671 -8.999998738011662 9.452452774248945 -9 10",
+	"M-8 -8C-7.9999915 -7.999995 -8.000002428 -7.999995869 -7.999989 -7.999993",
+}
+
 func oracleXMonotone(c *hc.Ctx) {
-	for it := 0; it < c.N; it++ {
+	for it := 0; it < len(xmonoRegressions)+c.N; it++ {
 		var p *canvas.Path
 		fam := ""
-		switch c.Intn(4) {
+		k := 4
+		if it >= len(xmonoRegressions) {
+			k = c.Intn(4)
+		}
+		switch k {
+		case 4:
+			fam = "regression:fix-xmonotone 2a055fa"
+			p = canvas.MustParseSVGPath(xmonoRegressions[it])
 		case 0:
 			fam = "quad:" + quadFamilies[c.Intn(len(quadFamilies))]
 			p0, p1, p2 := genQuad(c, fam[5:])
